@@ -183,6 +183,7 @@ def p_C05(ctx):
     ctx.replay(r.cases_path, attr_hist, profile="release", elem="elem", cap=0, label="edges")
     ctx.replay(r.cases_path, attr_hist, profile="release", elem="zst", cap=0, label="edges")
     ctx.replay(r.cases_path, attr_hist, profile="release", elem="elem40", cap=1, label="edges")     # drop glue AND wider than two words
+    ctx.replay(r.cases_path, attr_hist, profile="release", elem="elem8", cap=0, label="edges")      # drop glue AND word-sized (Box / Rc-like)
     if not ctx.quick:
         ctx.replay(r.cases_path, attr_hist, profile="dev", elem="zst", cap=1, label="edges")
         ctx.replay(r.cases_path, attr_hist, profile="dev", elem="elem", cap=2, label="edges")
@@ -228,7 +229,7 @@ def p_C06(ctx):
     ctx.count_nontrivial(r.cases_path, hist_key)
     ctx.sample_from(r.cases_path)
     combos = [("dev", "elem", 0), ("dev", "elem", 1), ("release", "u32", 1), ("release", "elem", 2), ("dev", "zst", 0), ("release", "zst", 1),
-              ("release", "tok", 0), ("release", "w24", 1), ("release", "w64k", 0), ("dev", "elem40", 0)]
+              ("release", "tok", 0), ("release", "w24", 1), ("release", "w64k", 0), ("dev", "elem40", 0), ("release", "elem8", 1)]
     if not ctx.quick:
         combos += [("dev", "u32", 0), ("dev", "u32", 2), ("release", "elem", 0), ("release", "elem", 1), ("dev", "elem", 2), ("dev", "tok", 1)]
     for prof, elem, cap in combos:
@@ -256,7 +257,7 @@ def p_C07(ctx):
     ctx.sample_from(sel)
     # w8 / w24: one and three machine words (u64-, String-like layouts); elem40: drop glue and wider than two words
     combos = [("dev", "elem", 0), ("dev", "elem", 1), ("release", "u32", 1), ("release", "elem", 2), ("dev", "zst", 0),
-              ("release", "w8", 1), ("release", "w24", 0), ("release", "elem40", 0)]
+              ("release", "w8", 1), ("release", "w24", 0), ("release", "elem40", 0), ("release", "elem8", 0), ("dev", "elem8", 1)]
     if not ctx.quick:
         combos += [("dev", "u32", 0), ("release", "zst", 1), ("release", "elem", 0), ("dev", "elem", 2)]
     for prof, elem, cap in combos:
@@ -537,7 +538,7 @@ def sort_pipeline(ctx, by):
     shapes = [0, 11, 13, 31, 23, 32, 33, 14, 41] if ctx.quick else ALL_SHAPES4
     r = acc_tlc(ctx, "sorts", [grp], shapes, kinds=("owned", "plain", "plainv", "slice_m"), depth=1,
                 bigs=(BIG_MAX, BIG_WRAP), workers=8 if ctx.quick else 12)
-    combos = [("dev", "u32"), ("release", "elem"), ("release", "b3"), ("release", "w80"), ("dev", "a128"), ("release", "w24")]      # w80: an 80-byte element
+    combos = [("dev", "u32"), ("release", "elem"), ("release", "b3"), ("release", "w80"), ("dev", "a128"), ("release", "w24"), ("release", "elem8")]      # w80: an 80-byte element
     if not ctx.quick:
         combos += [("dev", "elem"), ("release", "u32"), ("dev", "b3"), ("dev", "w80")]
     acc_replays(ctx, r, combos, "sorts")
@@ -916,7 +917,8 @@ def p_C11(ctx):
     nh, steps = (250, 40) if ctx.quick else (3000, 80)
     # w4k: one page per element - a few dozen cells already exceed byte-size thresholds of "large array" paths, and the
     # element itself exceeds element-size thresholds
-    for prof, seed_off, el in (("dev", 21, "elem"), ("release", 22, "tok"), ("release", 23, "w4k")):
+    # elem4k: page-sized DROP-TRACKING elements - two thousand cells are 8 MiB (large histories open with a faulty insert)
+    for prof, seed_off, el in (("dev", 21, "elem"), ("release", 22, "tok"), ("release", 23, "w4k"), ("release", 24, "elem4k")):
         ctx.drive_and_validate("drive-faults-" + el, ["hist", ctx.seed + seed_off, nh, steps, 6, "{out}", el, "faults"], "TooDeeTrace",
                                attr_fault_drive_event, profile=prof, invariants=("ShapeOK", "HandleOK"))
 
@@ -952,7 +954,8 @@ def p_C12(ctx):
     nh, steps = (250, 40) if ctx.quick else (3000, 80)
     # w4k: one page per element - a few dozen cells already exceed byte-size thresholds of "large array" paths, and the
     # element itself exceeds element-size thresholds
-    for prof, seed_off, el in (("dev", 21, "elem"), ("release", 22, "tok"), ("release", 23, "w4k")):
+    # elem4k: page-sized DROP-TRACKING elements - two thousand cells are 8 MiB (large histories open with a faulty insert)
+    for prof, seed_off, el in (("dev", 21, "elem"), ("release", 22, "tok"), ("release", 23, "w4k"), ("release", 24, "elem4k")):
         ctx.drive_and_validate("drive-faults-" + el, ["hist", ctx.seed + seed_off, nh, steps, 6, "{out}", el, "faults"], "TooDeeTrace",
                                attr_fault_drive_event, profile=prof, invariants=("ShapeOK", "HandleOK"))
 
